@@ -162,6 +162,43 @@ func (g *vfGen) genC18() {
 			}
 		}
 	}
+	// directed headers from the standard writer: base-256 numeric fields (size >= 8 GiB, large ids,
+	// negative times) and the text "/gpkg-1" in fields other than the name
+	for k := 0; k < 24; k++ {
+		var buf bytes.Buffer
+		w := vtar.NewWriter(&buf)
+		h := &vtar.Header{Typeflag: vtar.TypeReg, Name: fmt.Sprintf("data/blob-%02d.bin", k), Mode: 0o644, Uname: "user", Gname: "group",
+			ModTime: time.Unix(1700000000, 0), Format: vtar.FormatGNU}
+		switch k % 6 {
+		case 0:
+			h.Size = 1 << 33
+		case 1:
+			h.Size = 1<<40 + int64(k)
+		case 2:
+			h.Uid, h.Gid = 1<<30, 1<<29
+		case 3:
+			h.ModTime = time.Unix(-int64(1000+k), 0)
+		case 4:
+			h.Typeflag, h.Linkname = vtar.TypeSymlink, "releases/gpkg-1"
+			h.Format = []vtar.Format{vtar.FormatUSTAR, vtar.FormatPAX, vtar.FormatGNU}[k%3]
+		default:
+			h.Uname, h.Gname = "build/gpkg-1", "x/gpkg-1"
+			h.Format = []vtar.Format{vtar.FormatUSTAR, vtar.FormatPAX, vtar.FormatGNU}[k%3]
+		}
+		if err := w.WriteHeader(h); err != nil {
+			continue
+		}
+		a := append([]byte{}, buf.Bytes()...)
+		if len(a) < 512 {
+			continue
+		}
+		for len(a) < 1024 {
+			a = append(a, 0)
+		}
+		for _, lim := range []int{0, 3072, 512} {
+			g.emit(vfOp("tar", "ok", lim, a))
+		}
+	}
 	// crafted checksum fields: spaces, NULs, 7/8 digits, signed-sum variants
 	base := make([]byte, 512)
 	copy(base, "file.txt")
